@@ -50,3 +50,22 @@ def scene_lines(rng, inst, nobj=40):
           'gb.w %d 65354 %d' % (inst, rng.randrange(0, 144)), 'gb.w %d 65355 %d' % (inst, rng.randrange(0, 167)),
           'gb.w %d 65344 %d' % (inst, rng.choice([0x93, 0x93, 0xb3, 0x97, 0xf3, 0x9b]))]
     return L
+
+
+KEYS = [65, 83, 90, 88, 265, 264, 263, 262]          # GLFW codes of the mapped keys (A S Z X Up Down Left Right)
+
+
+def key_case(rng, prog, n_events=6, video=1):
+    """a machine with a display window (video=1) running `prog` from C000 with nothing enabled in IE; key events
+    (mapped and unmapped keys; press, release, repeat) arrive between runs of machine cycles; CPU mode, registers and
+    JOYP are observed after each"""
+    L = ['gb.newloop 0 0 0 0 0 %d' % video]
+    for i, b in enumerate(prog):
+        L.append('gb.w 0 %d %d' % (0xc000 + i, b))
+    L += ['gb.set 0 1 2 3 4 5 0 6 7 57343 49152', 'gb.w 0 65535 0', 'gb.cyc 0 %d' % rng.randrange(3, 12), 'gb.obs 0']
+    for _ in range(n_events):
+        k = rng.choice(KEYS + KEYS + [81, 32, 0])
+        a = rng.choice([1, 1, 0, 2])
+        L += ['gb.key 0 %d %d' % (k, a), 'gb.cyc 0 %d' % rng.choice([1, 2, 5, 30]), 'gb.obs 0',
+              'gb.w 0 65280 %d' % rng.choice([0x10, 0x20, 0x00, 0x30]), 'gb.r 0 65280']
+    return L
